@@ -34,6 +34,9 @@ RULES = {
     'C12.d': 'scan order: rotated files oldest first, live file last (later inserts override earlier labels)',
     'C12.i': 'the name a full oplog file is renamed to has a fresh component (clock or counter), it is not computed from the log itself: rename replaces an existing file of the same name',
     'C12.j': 'no function that opens the live oplog file (or a helper handed its name) truncates it (File::create, set_len, truncate(true))',
+    'C12.k': 'the per-file search is left only after the forward scan, on a failed probe read, at the end of the file (a short read), or on '
+             'a condition that consults both the probed time against `since` and the size of the file: giving up on the width of the search '
+             'window alone skips a file whose next record is at or after `since`',
 }
 
 
@@ -41,6 +44,7 @@ def run(ck, m):
     _run(ck, m)
     cleanup_rule(ck, m)
     since_rule(ck, m)
+    search_exits(ck, m)
 
 
 def _run(ck, m):
@@ -578,3 +582,82 @@ def cleanup_rule(ck, m):
           'the listing is sorted %s but the clean-up removes its %s: the NEWEST rotated files are deleted, the operations in them are never '
           'sent by an incremental resync' % ({True: 'newest first', False: 'oldest first', None: 'in an unrecognised order'}[nf], part),
           '%s:%s' % (b.file, b.line))
+
+
+def search_exits(ck, m):
+    """C12.k — see RULES"""
+    from props.C07 import natural_loops
+    from nl.locks import backward_slice
+    P = m.prog
+    rb = [b for b in P.user_bodies() if b.kind == 'fn' and b.argc == 3 and b.locals[1] == 'std::fs::File' and b.locals[2] == 'u64'
+          and 'HashMap' in b.locals[3]]
+    if len(rb) != 1:
+        ck.undecided('C12.k', 'reader', 'anchor', 'expected one (File, u64, &mut HashMap) reader, found %d' % len(rb))
+        return
+    b = rb[0]
+    loops = natural_loops(b)
+    ins = [bi for bi, t in b.calls() if callee_decl(t).endswith('HashMap::insert')]
+    inner = [(h, body) for h, body in loops if any(i_ in body for i_ in ins)]
+    # the search loop: it probes (reads) and the scan loop is reachable from it; the scan is followed by a break, so in the CFG the
+    # scan loop lies OUTSIDE the natural loop of the search
+    outer = [(h, body) for h, body in loops if not any(i_ in body for i_ in ins)
+             and any(ih in b.reach_from(list(body), include_start=False) for ih, ib in inner)]
+    if not inner or not outer:
+        ck.undecided('C12.k', short(b.id), 'anchor', 'search loop / scan loop not found (loops: %d, inserts: %d)' % (len(loops), len(ins)))
+        return
+    h, body = max(outer, key=lambda x: len(x[1]))
+    scan_heads = {ih for ih, ib in inner}
+    scan = set().union(*[ib for ih, ib in inner])
+    probes = [x for x in body if b.term(x)['k'] == 'call' and callee_decl(b.term(x)).startswith('std::io::Read::read')]
+    meta = [x for x, t in b.calls() if callee_decl(t).endswith(('Metadata::len', 'File::metadata', 'fs::metadata'))]
+    rets = set(b.return_blocks())
+    bad = []
+    nexit = 0
+    for x in sorted(body):
+        outs = [y for y in b.succ(x) if y not in body and not b.blocks[y].get('cleanup')]
+        if not outs:
+            continue
+        for y in outs:
+            nexit += 1
+            # left towards the scan: the function cannot return from here without entering the scan loop
+            if y in scan or not (rets & set(b.reach_from([y], stop=lambda q: q in scan_heads, include_start=True))):
+                continue
+            bad_here = True
+            break
+        else:
+            continue
+        # the deciding switch: x itself, or the nearest dominating switch inside the loop
+        cands = [s_ for s_ in body if b.term(s_)['k'] == 'switch' and (s_ == x or b.dominates(s_, x))]
+        if not cands:
+            bad.append((b.loc(x), 'unconditional'))
+            continue
+        sw_ = max(cands, key=lambda s_: len(b.dom().get(s_, ())))
+        op = b.term(sw_)['o']
+        pl = op.get('c') or op.get('m')
+        srcs = []
+        for (dbi, dsi, kind, rv) in (b.defs().get(pl['l'], []) if pl else []):
+            if kind == 'assign' and rv['k'] == 'discr':
+                srcs += list(core.place_origins(b, rv['p'], stop_at_calls=True))
+        if srcs and all(r[0] == 'call' and r[1] in probes for r in srcs):
+            continue                # the probe read failed
+        eof = False
+        for (dbi, dsi, kind, rv) in (b.defs().get(pl['l'], []) if pl else []):
+            if kind == 'assign' and rv['k'] == 'bin':
+                sides = [list(origins(b, rv[k_], stop_at_calls=True)) for k_ in ('a', 'b')]
+                for s1, s2 in ((sides[0], sides[1]), (sides[1], sides[0])):
+                    if s1 and all(r[0] == 'call' and r[1] in probes for r in s1) and s2 and all(r[0] == 'const' for r in s2):
+                        eof = True
+        if eof:
+            continue                # the count the probe read returned, compared with a constant: end of file
+        calls, params = backward_slice(b, op)
+        uses_since = 2 in params
+        uses_size = bool(calls & set(meta)) or any('metadata' in callee_decl(b.term(c)) or callee_decl(b.term(c)).endswith('::len') for c in calls)
+        if uses_since and uses_size:
+            continue
+        bad.append((b.loc(x), 'decided without %s' % ' and '.join(n_ for n_, u in (('the probed time against `since`', uses_since), ('the size of the file', uses_size)) if not u)))
+    ck.ob('C12.k', short(b.id), 'search-left-only-after-the-scan', not bad,
+          'the search loop is left after the scan, on a failed probe or at the end of the file (%d exits)' % nexit if not bad else
+          'the per-file search can be left at %s without the forward scan: when the probe just looked at the record BELOW `since` (the window is '
+          'down to one record) the next record is at or after `since` and is never read — for a `since` between two record times the file '
+          'contributes nothing to the catch-up' % bad, bad[0][0] if bad else '')
+    ck.floor('C12.k', nexit, 2, 'exits of the search loop')
